@@ -104,6 +104,37 @@ claim("C17", "fault_enumeration",
       "only the 'only if' direction is an alarm; over-caution is recorded as an observation",
       "runtime monitoring: feature-placement enumeration with recorded supported-method verdicts")
 
+claim("C06", "fault_enumeration",
+      "one fault of each listed kind at random token positions of every kind of text block of generated models, with "
+      "layout noise before the site; every diagnostic resolved against an ElementTree DOM of the same bytes (path "
+      "selects one element, line/columns inside it), attribution to the faulted element, exact identifier range",
+      "ElementTree as independent DOM; columns measured in UTF-8 bytes of the decoded block text",
+      "runtime monitoring: fault injection with recorded diagnostics checked against an independent DOM")
+claim("C07", "fault_enumeration",
+      "the contested name declared at every subset of nine scope levels; 22 use sites per model read back from the "
+      "document by frame identity; process-qualified names in queries incl. member types with arguments substituted "
+      "through chains of partial instantiations",
+      "reference resolver written from the statement; parameter+local in one template excluded (duplicate definition)",
+      "runtime monitoring: reference scope resolver vs recorded symbol owners of parsed IDENTIFIER nodes")
+claim("C09", "exploration",
+      "generated models (accepted and rejected) re-rendered with redundant parentheses, layout noise, comments, alias "
+      "spellings and with all identifiers consistently renamed; messages, supported methods and the canonical "
+      "document compared after mapping names back",
+      "rewrites are produced from the abstract model, so they are meaning preserving by construction",
+      "runtime monitoring: metamorphic comparison of recorded results of original and rewritten inputs")
+claim("C15", "exploration",
+      "every unit (parse call with its input) recorded alone in a fresh process, then replayed inside random sequences "
+      "of 2..8 calls in one process, a quarter with the global position counter seeded near 2^31/2^32; results "
+      "compared field by field except absolute positions",
+      "fork gives each recording a pristine process image; the counter is seeded through the exported global",
+      "runtime monitoring: history independence monitor (sequence vs fresh-process recording of the same call)")
+claim("C16", "fault_enumeration",
+      "one fault per non-declaring label / declaration of generated models; document compared with the fault-free "
+      "parse at the same stage (builder level, and after static analysis for type-level faults) with the faulted "
+      "label masked; every diagnostic path compared with the label's path",
+      "differential against the fault-free parse; document-wide summary flags belong to the faulted label",
+      "runtime monitoring: differential fault-isolation monitor over recorded documents and diagnostics")
+
 
 def main():
     props = [json.loads(l) for l in open(os.path.join(VERIF, "properties.jsonl"))]
